@@ -1,5 +1,6 @@
 import WalrusVerif.Model.Recover
 import WalrusVerif.Lemmas.LayoutLemmas
+import WalrusVerif.Lemmas.CrashLemmas
 import WalrusVerif.Lemmas.AEngStepR
 import WalrusVerif.Props.C01
 /-!
@@ -851,6 +852,108 @@ theorem C06_friendly_append_programs_are_recovered (c : Cfg) (hc : CfgOK c) (p :
       ∀ fuel, L.length < fuel →
         scanFile c f (fileCells (execAppends c p ops).files f) fuel 0 s = L.foldl (blockStep c f) s := by
   obtain ⟨i', L, _, hL, hlen, hent⟩ := diskInv_execAppends c hc f ops p i [] hi hinit hf (by simpa using hroom)
+  refine ⟨L, by intro t; rw [hent t]; simp [entriesOf], ?_⟩
+  intro fuel hfuel
+  have hlaid := fileLaid_of_layout c hc.meta_pos hc.bs_pos _ L [] (by simpa using hL.lay) (by simpa using hL.stray)
+    (by
+      simp only [List.length_nil, Nat.zero_add]
+      exact Nat.le_trans (Nat.mul_le_mul_right _ (by simpa using hlen)) hroom)
+  exact C06_scan_recovers_laid_file c hc.meta_pos f _ L 0 fuel s (by simpa using hlaid) hfuel
+
+/-! programs with reads in between: reads of either API, consuming or not, and counts leave the layout alone -/
+
+inductive FOp where
+  | append (t : Topic) (p : Pay)
+  | next (t : Topic) (cp : Bool)
+  | bread (t : Topic) (maxBytes : Nat) (cp : Bool) (start : Option Nat)
+  | count (t : Topic)
+
+def FOp.toOp : FOp → Op
+  | .append t p => .append t p
+  | .next t cp => .next t cp
+  | .bread t m cp st => .bread t m cp st
+  | .count t => .count t
+
+def appendsOf : List FOp → List (Topic × Pay)
+  | [] => []
+  | .append t p :: r => (t, p) :: appendsOf r
+  | _ :: r => appendsOf r
+
+def execF (c : Cfg) : Proc → List FOp → Proc
+  | p, [] => p
+  | p, op :: r => execF c (Eng.step c p op.toOp).1 r
+
+theorem diskInv_of_same (c : Cfg) (p p' : Proc) (i i' : Inst) (f : Nat) (L : List LBlock)
+    (hfiles : p'.files = p.files) (hw : i'.wside = i.wside) (h : DiskInv c p i f L) : DiskInv c p' i' f L := by
+  simp only [Inst.wside, Prod.mk.injEq] at hw
+  obtain ⟨h1, h2, _, h4⟩ := hw
+  exact ⟨h1.trans h.file, by rw [hfiles]; exact h.inrange, h2.trans h.alloc, by rw [hfiles]; exact h.lay,
+    by rw [hfiles]; exact h.stray, by unfold WritersOk; rw [h4]; exact h.writers⟩
+
+theorem diskInv_execF (c : Cfg) (hc : CfgOK c) (f : Nat) (ops : List FOp) :
+    ∀ (p : Proc) (i : Inst) (L : List LBlock), p.inst = some i → DiskInv c p i f L → Friendly c (appendsOf ops) →
+      (L.length + (appendsOf ops).length) * c.blockSize ≤ c.fileSize →
+      ∃ i' L', (execF c p ops).inst = some i' ∧ DiskInv c (execF c p ops) i' f L' ∧
+        L'.length ≤ L.length + (appendsOf ops).length ∧
+        ∀ t, entriesOf t L' = entriesOf t L ++ ((appendsOf ops).filter (fun x => x.1 = t)).map (·.2) := by
+  induction ops with
+  | nil => intro p i L hi h _ _; exact ⟨i, L, hi, h, by simp [appendsOf], by simp [appendsOf]⟩
+  | cons op r ih =>
+    intro p i L hi h hf hroom
+    cases op with
+    | append t pay =>
+      simp only [appendsOf] at hf hroom ⊢
+      have hfo := hf (t, pay) List.mem_cons_self
+      have hroom1 : (L.length + 1) * c.blockSize ≤ c.fileSize :=
+        Nat.le_trans (Nat.mul_le_mul_right _ (by simp)) hroom
+      obtain ⟨_, L1, h1, hlen1, hent, hoth⟩ := diskInv_append c hc p i f L t pay h hfo.1 hfo.2 hroom1
+      have hstep : (Eng.step c p (FOp.append t pay).toOp).1 =
+          { (appendForTopic c p i t pay).1 with inst := some (appendForTopic c p i t pay).2.1 } := by
+        simp only [FOp.toOp, Eng.step, withInst, hi]
+      have hroom2 : (L1.length + (appendsOf r).length) * c.blockSize ≤ c.fileSize :=
+        Nat.le_trans (Nat.mul_le_mul_right _ (by simp only [List.length_cons] at *; omega)) hroom
+      obtain ⟨i2, L2, hi2, h2, hlen2, hent2⟩ := ih (Eng.step c p (FOp.append t pay).toOp).1 (appendForTopic c p i t pay).2.1 L1
+        (by rw [hstep]) (by rw [hstep]; exact diskInv_inst_irrelevant c _ _ _ f L1 h1)
+        (fun x hx => hf x (List.mem_cons_of_mem _ hx)) hroom2
+      refine ⟨i2, L2, hi2, h2, by simp only [List.length_cons]; omega, ?_⟩
+      intro t0
+      rw [hent2 t0]
+      by_cases e : t = t0
+      · subst e; rw [hent]; simp [List.filter_cons]
+      · rw [hoth t0 (fun x => e x.symm)]; simp [List.filter_cons, e]
+    | next t cp =>
+      simp only [appendsOf] at hf hroom ⊢
+      have hstep : (Eng.step c p (FOp.next t cp).toOp).1 =
+          { (readNext c p i t cp).1 with inst := some (readNext c p i t cp).2.1 } := by
+        simp only [FOp.toOp, Eng.step, withInst, hi]
+      exact ih _ (readNext c p i t cp).2.1 L (by rw [hstep])
+        (by rw [hstep]; exact diskInv_inst_irrelevant c _ _ _ f L
+              (diskInv_of_same c p _ i _ f L (files_readNext c p i t cp) (wside_readNext c p i t cp) h)) hf hroom
+    | bread t m cp st =>
+      simp only [appendsOf] at hf hroom ⊢
+      have hstep : (Eng.step c p (FOp.bread t m cp st).toOp).1 =
+          { (batchRead c p i t m cp st).1 with inst := some (batchRead c p i t m cp st).2.1 } := by
+        simp only [FOp.toOp, Eng.step, withInst, hi]
+      exact ih _ (batchRead c p i t m cp st).2.1 L (by rw [hstep])
+        (by rw [hstep]; exact diskInv_inst_irrelevant c _ _ _ f L
+              (diskInv_of_same c p _ i _ f L (files_batchRead c p i t m cp st) (wside_batchRead c p i t m cp st) h)) hf hroom
+    | count t =>
+      simp only [appendsOf] at hf hroom ⊢
+      have hstep : (Eng.step c p (FOp.count t).toOp).1 = { p with inst := some i } := by
+        simp only [FOp.toOp, Eng.step, withInst, hi]
+      exact ih _ i L (by rw [hstep]) (by rw [hstep]; exact diskInv_inst_irrelevant c _ _ _ f L h) hf hroom
+
+/-- **Friendly programs are recovered.**  As `C06_friendly_append_programs_are_recovered`, with reads of both APIs
+(consuming or not, cursor-based or offset-addressed) and count queries anywhere in the program: they neither move
+nor damage what the appends laid out, so the recovery scan still registers exactly the appended entries, topic by
+topic, in order. -/
+theorem C06_friendly_programs_are_recovered (c : Cfg) (hc : CfgOK c) (p : Proc) (i : Inst) (f : Nat)
+    (hi : p.inst = some i) (hinit : DiskInv c p i f []) (ops : List FOp) (hf : Friendly c (appendsOf ops))
+    (hroom : (appendsOf ops).length * c.blockSize ≤ c.fileSize) (s : ScanSt) :
+    ∃ L : List LBlock, (∀ t, entriesOf t L = ((appendsOf ops).filter (fun x => x.1 = t)).map (·.2)) ∧
+      ∀ fuel, L.length < fuel →
+        scanFile c f (fileCells (execF c p ops).files f) fuel 0 s = L.foldl (blockStep c f) s := by
+  obtain ⟨i', L, _, hL, hlen, hent⟩ := diskInv_execF c hc f ops p i [] hi hinit hf (by simpa using hroom)
   refine ⟨L, by intro t; rw [hent t]; simp [entriesOf], ?_⟩
   intro fuel hfuel
   have hlaid := fileLaid_of_layout c hc.meta_pos hc.bs_pos _ L [] (by simpa using hL.lay) (by simpa using hL.stray)
